@@ -98,6 +98,9 @@ SlotsHoldDefault     == st.areas \in {None, Default} /\ st.jac \in {None, Defaul
 \* observations are a function of the call alone: the history never matters
 HistoryFree          == \A i, j \in 1..Len(hist) : hist[i].act = hist[j].act => hist[i].res = hist[j].res
 
+\* generation channel: every complete history with the expected observation of each step
+EmitFull == Len(hist) = MaxLen => PrintT(<<"H", hist>>)
+
 (* ---- traces recorded from the implementation ----------------------------------------- *)
 \* one ndjson line per behaviour: [ id, steps : Seq([ act : Seq, raised : BOOLEAN, kind : STRING, tags : Seq(<<rule, latlon>>) ]) ]
 \* tags = every tag whose fresh-grid value equals the observed value bitwise (kind "areas"/"jac"/"total");
